@@ -328,6 +328,8 @@ func exprStrD(v ssa.Value, d int) string {
 }
 
 var c16SubExempt = map[string]string{
+	"container.(*Container).GetNextBlock / container.Container.Length() - formats/varint.Unpack64()#1":            "the subtrahend is the number of bytes Unpack64 consumed from Peek(10)'s result, which is never more than the container holds (C10-R1/R2: the reported length lies within the input)",
+	"container.(*Container).GetNextBlockAsContainer / container.Container.Length() - formats/varint.Unpack64()#1": "as above",
 	"container.(*Container).renewCompartments / len(c.compartments) - c.offset": "container invariant offset <= len(compartments), maintained by every store to offset (C16-R1, R2, R6)",
 }
 
@@ -1986,4 +1988,167 @@ func c06R19(c *Ctx, r *Report) {
 func init() {
 	extend("C07", "(R19) runWithLocking - which runs synchronously in the global queue handler - waits for a module's StartCompleted() only in a select that also ends when the module context is cancelled.", c07R19)
 	extend("C06", "(R19) the failure arm of Module.start (status reset to offline) cancels the module context on every path, so a failed or panicked start releases what waits for the module and stops what the start routine launched.", c06R19)
+}
+
+// c16R17: the block getters consume nothing before they know that the announced block is held.
+func c16R17(c *Ctx, r *Report) {
+	const rule = "C16-R17"
+	r.SetFloor(rule, 2)
+	for _, fname := range []string{"container.(*Container).GetNextBlock", "container.(*Container).GetNextBlockAsContainer"} {
+		fn := c.Func(fname)
+		if fn == nil {
+			r.Undecided(rule, fname, "anchor function missing")
+			continue
+		}
+		isSize := func(v ssa.Value) bool {
+			for _, l := range c.Leaves(v) {
+				if ex, ok := l.(*ssa.Extract); ok && ex.Index == 0 {
+					if _, isN := isCallTo(ex, "container.Container.GetNextN64", "formats/varint.Unpack64"); isN {
+						return true
+					}
+				}
+			}
+			return false
+		}
+		isHeld := func(v ssa.Value) bool {
+			for _, l := range c.Leaves(v) {
+				if call, ok := l.(*ssa.Call); ok && strings.HasSuffix(calleeName(&call.Call), "container.Container.Length") {
+					return true
+				}
+				if bo, ok := l.(*ssa.BinOp); ok && bo.Op == token.SUB {
+					if call, ok := bo.X.(*ssa.Call); ok && strings.HasSuffix(calleeName(&call.Call), "container.Container.Length") {
+						return true
+					}
+				}
+			}
+			return false
+		}
+		fits := relGuards("block size <= held", isSize, isHeld, func(a, b int64) bool { return a <= b })
+		consuming := callsIn(fn, "container.Container.skip", "container.Container.GetNextN8", "container.Container.GetNextN16", "container.Container.GetNextN32", "container.Container.GetNextN64",
+			"container.Container.Get", "container.Container.GetAsContainer", "container.Container.GetMax", "container.Container.GetAll")
+		if len(consuming) == 0 {
+			r.Bad(rule, fname+" / consumes only after the size check", "the getter no longer consumes anything")
+			continue
+		}
+		for i, ci := range consuming {
+			p := ReachTargetAvoiding(fn, ci, fits, nil)
+			r.Check(p == nil, rule, fmt.Sprintf("%s / consuming call #%d (%s) only after the size check", fname, i+1, calleeName(ci.Common())), "reachable only across block size <= held data",
+				"the getter consumes data (the length prefix) before it knows that the announced block is held: a request that fails for lack of data leaves the remaining data shifted", c.pathString(p)...)
+		}
+	}
+}
+
+func init() {
+	extend("C16", "(R17) GetNextBlock / GetNextBlockAsContainer consume (skip, Get, GetAsContainer, GetNextN*) only across the edge on which the announced block size was found to be within the held data - the length prefix is peeked, not consumed, until then.", c16R17)
+	extend("C10", "(R10) = C16-R17 (block extraction from a container consumes the length prefix only together with a block that is fully held).", borrowRule(c16R17, "C16-R17", "C10-R10", 2, nil))
+}
+
+// c19R20: Purge establishes the newest-first order itself before it searches the purge boundary.
+func c19R20(c *Ctx, r *Report) {
+	const rule = "C19-R20"
+	r.SetFloor(rule, 1)
+	fn := c.Func("updater.(*Resource).Purge")
+	if fn == nil {
+		r.Undecided(rule, "updater.(*Resource).Purge", "anchor function missing")
+		return
+	}
+	isSort := func(in ssa.Instruction) bool {
+		ci, ok := in.(*ssa.Call)
+		if !ok {
+			return false
+		}
+		n := calleeName(ci.Common())
+		return n == "sort.Sort" || n == "sort.Stable" || strings.HasPrefix(n, "sort.Slice") || strings.HasPrefix(n, "slices.Sort")
+	}
+	// every position-dependent use of the version list: re-slicing it (Versions[boundary:], Versions[:boundary])
+	n := 0
+	eachInstr(fn, func(in ssa.Instruction) {
+		sl, ok := in.(*ssa.Slice)
+		if !ok {
+			return
+		}
+		if _, fr, isF := fieldLoad(sl.X); !isF || fr.Name != "Versions" {
+			return
+		}
+		n++
+		r.Check(MustPrecede(fn, isSort, in), rule, fmt.Sprintf("updater.(*Resource).Purge / version list sorted before it is cut #%d", n), "a sort of the resource's versions precedes the cut on every path",
+			"Purge cuts the version list at a boundary without having sorted it: a version added since the last selection sits at the end of the list and is purged as if it were the oldest - the file of the newest stable version is deleted", c.Pos(in.Pos()))
+	})
+	if n == 0 {
+		r.Undecided(rule, "updater.(*Resource).Purge", "no cut of the version list found")
+	}
+}
+
+func init() {
+	extend("C19", "(R20) Purge sorts the resource's versions (newest first) before it cuts the list at the purge boundary - the order is not left to whoever called the version selection last.", c19R20)
+}
+
+// recheckAfterLockRule: a map entry that is created under a write lock taken
+// after an unlocked / read-locked look-up is looked up again under that lock
+// (double-checked creation). table: function -> global map.
+func recheckAfterLockRule(c *Ctx, r *Report, rule string, table map[string]string) {
+	r.SetFloor(rule, len(table))
+	for fname, global := range table {
+		fn := c.Func(fname)
+		if fn == nil {
+			r.Undecided(rule, fname, "anchor function missing")
+			continue
+		}
+		isMap := func(v ssa.Value) bool { return vpath(v) == "global:"+global }
+		isLookup := func(in ssa.Instruction) bool {
+			lk, ok := in.(*ssa.Lookup)
+			return ok && isMap(lk.X)
+		}
+		held := LocksHeldAt(fn)
+		n := 0
+		eachInstr(fn, func(in ssa.Instruction) {
+			mu, ok := in.(*ssa.MapUpdate)
+			if !ok || !isMap(mu.Map) {
+				return
+			}
+			n++
+			// the write lock held at the store
+			var lock string
+			for l := range held[in] {
+				if !strings.HasPrefix(l, "R:") {
+					lock = l
+				}
+			}
+			if lock == "" {
+				r.Bad(rule, fname+" / entry created under the write lock after a re-check", "the entry is stored without a write lock held", c.Pos(in.Pos()))
+				return
+			}
+			// from the acquisition of that lock to the store, a look-up of the map must happen
+			var bad ssa.Instruction
+			eachInstr(fn, func(li ssa.Instruction) {
+				ci, isCall := li.(ssa.CallInstruction)
+				if !isCall {
+					return
+				}
+				if _, isDefer := li.(*ssa.Defer); isDefer {
+					return
+				}
+				name, op, write := lockOp(ci)
+				if op <= 0 || !write || name != lock {
+					return
+				}
+				if x := ReachInstr(fn, li, func(t ssa.Instruction) bool { return t == in }, isLookup); x != nil {
+					bad = x
+				}
+			})
+			r.Check(bad == nil, rule, fname+" / entry created under the write lock after a re-check", "between taking the write lock and storing the new entry the map is looked up again",
+				"the entry is created under the write lock without looking the map up again: two callers that both missed under the read lock create it one after the other, and the second replaces the first - whatever was registered on the first (subscriptions, hooks, hashmap records) is lost", c.Pos(in.Pos()))
+		})
+		if n == 0 {
+			r.Bad(rule, fname+" / entry created under the write lock after a re-check", "the function no longer stores into "+global)
+		}
+	}
+}
+
+func init() {
+	tbl := map[string]string{"database.getController": "database.controllers"}
+	const txt = "getController looks the controller map up again after taking the write lock, before it starts the database and stores the new controller (double-checked creation: one controller per database)"
+	extend("C14", "(R14) "+txt+".", func(c *Ctx, r *Report) { recheckAfterLockRule(c, r, "C14-R14", tbl) })
+	extend("C02", "(R22) = C14-R14: "+txt+".", func(c *Ctx, r *Report) { recheckAfterLockRule(c, r, "C02-R22", tbl) })
+	extend("C13", "(R17) = C14-R14: "+txt+".", func(c *Ctx, r *Report) { recheckAfterLockRule(c, r, "C13-R17", tbl) })
 }
